@@ -95,11 +95,17 @@ def run(out: common.Outcome, explore: int = 0) -> None:
             per_line = len(legC) % 2 == 1
             docs = [gen.rand_doc(rng, jm, perturb=rng.choice([0.0, 0.02, 0.05])) for _ in range(rng.randint(2, 4) if per_line else 1)]
             path = os.path.join(tmp, f"f{len(legC)}.json")
+            raw_unicode = len(legC) % 4 >= 2
+            if raw_unicode:
+                # an unmapped string attribute containing characters str.splitlines() splits on, written raw (legal JSON)
+                for dd in docs:
+                    if isinstance(dd, dict):
+                        dd["zz_note"] = "a" + rng.choice(["\u2028", "\u2029", "\x85", "\x0b", "\x0c", "\x1c", "\x1e"]) + "b"
             with open(path, "w", encoding="utf-8") as f:
                 if per_line:
-                    f.write("\n".join(json.dumps(d) for d in docs))
+                    f.write("\n".join(json.dumps(d, ensure_ascii=not raw_unicode) for d in docs))
                 else:
-                    json.dump(docs[0], f, indent=1)
+                    json.dump(docs[0], f, indent=1, ensure_ascii=not raw_unicode)
             cfg = JSONDataSourceConfig(filepath=path, dirpath=None, json_per_line=per_line,
                                        field_mapping=copy.deepcopy(m), jq_query=None)
             try:
